@@ -149,6 +149,18 @@ fn panic_violation(property: &str, spec: &Spec, scalar: &str, hist: &[f64], msg:
     Violation::new(property, spec, "panicked", scalar, hist, format!("panicked: {}", msg))
 }
 
+/// Build a configuration the catalogue deems valid; a constructor that panics on it is reported
+/// (the check cannot judge the view at all otherwise) instead of crashing the engine.
+pub fn build_or_report<T: Scalar>(property: &str, spec: &Spec, sink: &Sink) -> Option<Dyn<T>> {
+    match crate::explore::guard(|| build::<T>(spec)) {
+        Ok(v) => Some(v),
+        Err(m) => {
+            sink.push(Violation::new(property, spec, "panicked", T::NAME, &[], format!("the constructor panicked on a valid configuration: {}", m)));
+            None
+        }
+    }
+}
+
 /// TREE over `alpha`^<=depth, oracle at every node.
 pub fn ref_tree<T: Scalar>(
     property: &str,
@@ -160,7 +172,7 @@ pub fn ref_tree<T: Scalar>(
     oracle: &Oracle<T>,
 ) {
     let c0 = T::inexact();
-    let v = build::<T>(spec);
+    let Some(v) = build_or_report::<T>(property, spec, sink) else { return };
     let root = RefState { v, tainted: T::inexact() > c0 };
     st.configs += 1;
     tree::<T, RefState<T>>(
@@ -192,7 +204,7 @@ pub fn ref_closure<T: Scalar>(
         r: RefState<T>,
         recent: Vec<f64>,
     }
-    let v = build::<T>(spec);
+    let Some(v) = build_or_report::<T>(property, spec, sink) else { return false };
     let root = S { r: RefState { v, tainted: false }, recent: vec![] };
     st.configs += 1;
     let res = closure::<S<T>>(
@@ -242,7 +254,7 @@ pub fn ref_tree_from_bases<T: Scalar>(
     for base in base_list {
         T::reset_arena();
         let c0 = T::inexact();
-        let v = build::<T>(spec);
+        let Some(v) = build_or_report::<T>(property, spec, sink) else { return };
         let mut root = RefState { v, tainted: T::inexact() > c0 };
         st.configs += 1;
         let mut ok = true;
